@@ -196,6 +196,11 @@ func selftestModels() int {
 			want string
 		}
 		scs := []sc{
+			{"strings.Replacer", func(p *pinned) (string, bool) {
+				oldnew := []Val{cstr("&"), cstr("&amp;"), cstr("<"), cstr("&lt;"), cstr("<%"), cstr("T"), cstr("ab"), cstr("X"), cstr("a"), cstr("Y")}
+				r := mNewReplacer(p.ex, []Val{newSlice(oldnew)})
+				return p.eval(mReplacerReplace(p.ex, []Val{r, p.sym("a" + in + "<%ab" + in)}).(Str))
+			}, strings.NewReplacer("&", "&amp;", "<", "&lt;", "<%", "T", "ab", "X", "a", "Y").Replace("a" + in + "<%ab" + in)},
 			{"strings.ContainsAny", func(p *pinned) (string, bool) {
 				return evalBool(p, models["strings.ContainsAny"](p.ex, []Val{p.sym(in), cstr("&<>\"\x00")})), true
 			}, strconv.FormatBool(strings.ContainsAny(in, "&<>\"\x00"))},
@@ -350,7 +355,7 @@ func selftestModels() int {
 			report("strconv.Atoi", in, got, want)
 		}
 	}
-	fmt.Printf("selftest: %d inputs x {html, js, json string (both escaping modes), utf8, split, replace, trimspace, ContainsAny, IndexAny, LastIndex, Count, Trim*, ToUpper/ToLower, EqualFold, Fields, unicode predicates} + 14 JSON container shapes + rune encoder + formatting + Atoi compared with the standard library, %d mismatches\n", checked, bad)
+	fmt.Printf("selftest: %d inputs x {html, js, json string (both escaping modes), utf8, split, replace, trimspace, Replacer, ContainsAny, IndexAny, LastIndex, Count, Trim*, ToUpper/ToLower, EqualFold, Fields, unicode predicates} + 14 JSON container shapes + rune encoder + formatting + Atoi compared with the standard library, %d mismatches\n", checked, bad)
 	return bad
 }
 
